@@ -83,7 +83,12 @@ def _cases(draw):
     vendor = draw(st.sampled_from(["huawei", "cisco", "juniper", "routeros", "pc", "arista"]))
     words = st.sampled_from(["a", "b", "c", "ab", "A", "B", "x1", "x12", "foo", "ba", "bb", "cc", "undo", "no", "delete", "abc", "Eth1/0/1", "ge/1", "notify", "undone"])
     rows = draw(st.lists(st.lists(words, min_size=1, max_size=8).map(" ".join), min_size=1, max_size=6))
-    return {"kind": "gen", "pattern": ("(?i)" if icase else "") + " ".join(toks) + (" ~" if tilde else ""), "vendor": vendor, "rows": rows}
+    # how the rule file separates the words of the line (hand-aligned rule files use tabs and runs of blanks), and whether the line
+    # carries a %param (the parser takes a different path for lines with and without params)
+    sep = draw(st.sampled_from([" ", " ", " ", "\t", "  ", "   "]))
+    param = draw(st.sampled_from(["", "", " %comment=x", "  %comment=x"]))
+    return {"kind": "gen", "pattern": ("(?i)" if icase else "") + " ".join(toks) + (" ~" if tilde else ""), "vendor": vendor, "rows": rows,
+            "sep": sep, "param": param}
 
 
 def strategy(tier):
@@ -243,6 +248,7 @@ def _gen(case):
     from annet.annlib.rbparser.ordering import compile_ordering_text
     from annet.annlib.rbparser.syntax import compile_row_regexp
     from annet.rulebook.deploying import compile_deploying_text, match_deploy_rule
+    from annet.rulebook.patching import compile_patching_text
     from annet import implicit
     from vf.model import sut
     pattern, vendor = case["pattern"], case["vendor"]
@@ -250,7 +256,10 @@ def _gen(case):
     rev = sut.registry()[vendor].reverse
     rx = compile_row_regexp(pattern)
     labels = []
-    text = pattern + "\n"
+    sep = case.get("sep", " ")
+    text = sep.join(pattern.split(" ")) + case.get("param", "") + "\n"
+    if sep != " ":
+        labels.append("spaced")
     rows = list(case["rows"])
     pos = _positive(toks)
     if pos is not None:
@@ -259,8 +268,9 @@ def _gen(case):
         rows.append(" ".join(w[:-1]) if len(w) > 1 else pos + "zz")
         rows.append(pos + "zz")
         labels.append("near-miss")
-    acl = compile_acl_text(text, vendor)
-    order = compile_ordering_text(text, vendor)
+    acl = compile_acl_text(sep.join(pattern.split(" ")) + "\n", vendor)
+    order = compile_ordering_text(sep.join(pattern.split(" ")) + "\n", vendor)
+    (prule,) = compile_patching_text(text, vendor)["local"].values()
     dep = compile_deploying_text(text, vendor)
     imp = implicit.compile_tree({"x": {"row": pattern, "type": "normal", "children": {}}})
     plain = pattern.replace("(?i)", "").strip()
@@ -271,6 +281,17 @@ def _gen(case):
         raise Violation("double-negation", f"negating {plain!r} twice gives {acl_reverse(acl_reverse(plain, rev), rev)!r}", {"pattern": pattern})
     for row in rows:
         exp = _check_pair(pattern, toks, icase, rx, row, (rev,), labels)
+        # the rule as the patching compiler sees it in a rule file (whatever blanks separate its words)
+        pm = prule["attrs"]["regexp"].match(row)
+        if (None if pm is None else tuple(pm.groups())) != exp:
+            raise Violation("match", f"rule line {text!r} compiled by compile_patching_text: row {row!r} gives "
+                            f"{None if pm is None else tuple(pm.groups())!r}, the rule language says {exp!r}", {"pattern": pattern, "row": row, "text": text})
+        if exp is not None:
+            rgot = prule["attrs"]["reverse"].format(*exp)
+            rexp = ref_reverse(toks, rev, exp)
+            if rgot != rexp:
+                raise Violation("reverse", f"rule line {text!r} compiled by compile_patching_text: key {exp!r}: removal command {rgot!r}, "
+                                f"expected {rexp!r}", {"pattern": pattern, "row": row, "text": text})
         if exp is not None and any(t.startswith("*") or t == "~" for t in toks):
             labels.append("placeholder-match")
         (rid, arule), = acl["local"].items()
